@@ -456,6 +456,7 @@ func runC16(c *Ctx) []Obligation {
 	)
 	out := c.Rows(rows)
 	out = append(out, c.replayKeyBytes(P), c.canonicalDecode(P))
+	out = append(out, indexerSkipRows(c, P)...)
 	return out
 }
 
